@@ -4,6 +4,7 @@ import DrummerVerif.Lemmas.C01N
 import DrummerVerif.Lemmas.Stamp
 import DrummerVerif.Lemmas.C02Events
 import DrummerVerif.Lemmas.Applied
+import DrummerVerif.Lemmas.C01M
 /-!
 # C01 — self-healing: the control loop restores every shard after faults stop (PARTIAL: safety invariants and per-round progress lemmas; the convergence bound is decided by the correspondence run, see DESIGN.md)
 
@@ -227,6 +228,55 @@ theorem every_running_replica_is_reported :
               Host.run? h rep.shard = some rep →
                 ∃ ci, ci ∈ (Loop.buildReport l h count).shardInfo ∧ ci.shardId = rep.shard ∧ ci.replicaId = rep.id :=
   @_root_.Drummer.report_lists_every_running_replica
+
+
+/-! ### the chain composed: one scheduling round heals a crashed member whose host is back with its data (a concrete
+    state that meets every hypothesis is in `Props/WitnessHeal`) -/
+
+theorem one_round_heals_a_crashed_member :
+    ∀ (l : Loop),
+      Loop.AR l →
+        UniqueShards l.db.image →
+          ∀ (rs : List Request) (db' : DB) (n : Nat),
+            DB.applyRequests l.db rs = Outcome.ok (db', n) →
+              n ≠ 0 →
+                ∀ (r : Request),
+                  r ∈ rs →
+                    r.type = ReqType.create →
+                      r.restore = true →
+                        r.join = false →
+                          ∀ (h : Host),
+                            Loop.host? l r.raftAddress = some h →
+                              Host.run? h r.shardId = none →
+                                ∀ (ap : Int),
+                                  Host.dataGet h r.shardId r.instantiateReplicaId = some ap →
+                                    (∀ (x : Request),
+                                        x ∈ h.queue ++ forAddr rs r.raftAddress →
+                                          x.shardId = r.shardId →
+                                            x = r ∨
+                                              x.type ≠ ReqType.create ∧
+                                                ¬(x.type = ReqType.kill ∧
+                                                    List.head? x.members = some r.instantiateReplicaId)) →
+                                      ∀ (l2 : Loop) (k : Nat),
+                                        Loop.report
+                                              { db := db', hosts := l.hosts, groups := l.groups, nextVer := l.nextVer,
+                                                regions := l.regions }
+                                              r.raftAddress false =
+                                            Outcome.ok (l2, k) →
+                                          ∀ (lost : Bool) (l4 : Loop) (k4 : Nat),
+                                            Loop.report (Loop.execute l2 r.raftAddress) r.raftAddress lost =
+                                                Outcome.ok (l4, k4) →
+                                              (∃ h3,
+                                                  Loop.host? (Loop.execute l2 r.raftAddress) r.raftAddress = some h3 ∧
+                                                    Option.map (fun x => x.id) (Host.run? h3 r.shardId) =
+                                                      some r.instantiateReplicaId) ∧
+                                                ∀ (c : Shard),
+                                                  c ∈ l4.db.image.shards →
+                                                    c.shardId = r.shardId →
+                                                      ∀ (m : Replica),
+                                                        m ∈ c.replicas →
+                                                          m.replicaId = r.instantiateReplicaId → m.tick = l2.db.tick :=
+  @_root_.Drummer.restore_round_heals_member
 
 
 end C01
